@@ -17,6 +17,9 @@
 From Coq Require Import List Arith.
 Import ListNotations.
 From BQ Require Import rt.WorkerM rt.WorkerThm rt.WorkerLive rt.WorkerGnr.
+From Coq Require Import ZArith.
+From BQ Require Import rt.SchedPre gen.SchedArith rt.Routing rt.TreeNet rt.TreeNetThm rt.TreeNetLive.
+Open Scope nat_scope.
 
 (* ---- D7 (finding) -------------------------------------------------------------------
    The code as it is: a RESULT handled between `box.dest_addr = ...` and `if box.ready` of
@@ -195,4 +198,111 @@ Proof.
   eexists. eexists. eexists. split; [reflexivity|]. split; [right; left; reflexivity|]. split; [reflexivity|].
   split; [reflexivity|]. split; [left; reflexivity|]. split; [reflexivity|]. split; [reflexivity|].
   eexists. split; [reflexivity|]. split; [reflexivity|]. split; reflexivity.
+Qed.
+
+(* =====================================================================================
+   Trees of managers (rt/TreeNet.v, proofs in rt/TreeNetThm.v)
+   Vocabulary:
+     tree / wf LB UB T          shape of the hierarchy (Leaf n = a node with n workers, Node cs = a node of
+                                managers) whose start-up succeeded (rt/Routing.v; ranges = the GENERATED
+                                connect_to_managers / spawn_workers arithmetic)
+     treach LB UB T s           s is reached from the empty network by any list of events: workers sending
+                                RESULT / SUBMIT / SUBMIT_BATCH (TInjRes / TInjBatch), the server scheduling
+                                a new task (TRoot), a node handling the OLDEST message of one of its
+                                connections (TDeliver; per-channel FIFO, any interleaving, any
+                                num_idle_workers, any assignment that partitions the batch), a worker
+                                receiving (TWorkerRecv)
+     worker_at LB UB T p        id of the worker at path p (None if p is not a worker)
+     n_inbox / n_chan / n_client / n_err    received by workers / in flight / stored for a client / raised
+   ===================================================================================== *)
+
+(* ---- every RESULT reaches exactly the worker that owns its return address, whatever the tree --------
+   (1) no handler of any node ever raises (RuntimeError `Cannot send result to unmanaged worker`,
+       IndexError of employees[..] / rtasks[0], ZeroDivisionError);
+   (2) a RESULT received by the worker at path p has return_address.worker_id = id of p;
+   (3) the same already on the last hop (waiting on that worker's connection);
+   (4) worker ids identify workers (two leaves never share an id), so "the worker" is unique. *)
+Theorem C07_tree_result_routing : forall LB UB T s, wf LB UB T -> (0 <= LB)%Z -> treach LB UB T s ->
+  n_err s = [] /\
+  (forall p rid dest by_, In (p, TRes rid dest by_) (n_inbox s) -> worker_at LB UB T p = Some dest) /\
+  (forall p rid dest by_ w, In (p, Down, TRes rid dest by_) (n_chan s) -> worker_at LB UB T p = Some w -> w = dest) /\
+  (forall p p' w, worker_at LB UB T p = Some w -> worker_at LB UB T p' = Some w -> p = p').
+Proof. exact tree_result_routing. Qed.
+
+(* ---- nothing lost, nothing duplicated in the tree: for every task id y and every result id y,
+   #(in flight) + #(received by workers) (+ #(stored for a client)) = #(sent).  With C07_tree_drain_bounded:
+   once the channels are empty every submitted task sits in exactly as many worker inboxes as it was
+   submitted (once), and every result in the inbox of its owner or in the client mailbox. *)
+Theorem C07_tree_conservation : forall LB UB T s, wf LB UB T -> (0 <= LB)%Z -> treach LB UB T s ->
+  (forall y, cnt y (chan_tids (n_chan s)) + cnt y (inbox_tids (n_inbox s)) = cnt y (n_tinj s)) /\
+  (forall y, cnt y (chan_rids (n_chan s)) + cnt y (inbox_rids (n_inbox s)) + cnt y (n_client s) = cnt y (n_rinj s)).
+Proof. exact tree_conservation. Qed.
+
+(* ---- no message circulates: every hop strictly decreases `measure` (hops still ahead x tasks carried),
+   so a run segment without new submissions has at most `measure` events, under ANY scheduling of the
+   nodes (no fairness assumption is needed for the bound; that enabled hops are eventually taken is the
+   only liveness assumption on the network). *)
+Theorem C07_tree_hops_decrease : forall LB UB T s e s', wf LB UB T -> (0 <= LB)%Z -> treach LB UB T s ->
+  tstep LB UB T s e = Some s' -> is_inject e = false -> measure T s' < measure T s.
+Proof. exact tree_hops_decrease. Qed.
+
+Theorem C07_tree_drain_bounded : forall LB UB T, wf LB UB T -> (0 <= LB)%Z -> forall es s s', treach LB UB T s ->
+  tsteps LB UB T s es = Some s' -> forallb (fun e => negb (is_inject e)) es = true ->
+  length es + measure T s' <= measure T s.
+Proof. exact tree_drain_bounded. Qed.
+
+(* ---- progress of the routing layer: in a hierarchy where every node has at least one employee
+   (emp_pos), while any message is in flight some hop (a node handling a message, or a worker receiving)
+   is enabled -- with C07_tree_hops_decrease: the tree cannot hold a RESULT or a task forever, no state
+   with a stuck message is reachable.  Fairness assumed: none beyond "an enabled hop is eventually taken"
+   (every node keeps reading its connections; every worker keeps reading its connection). *)
+Theorem C07_tree_progress : forall LB UB T s, wf LB UB T -> (0 <= LB)%Z -> emp_pos T -> treach LB UB T s ->
+  n_chan s <> [] -> exists e s', is_inject e = false /\ tstep LB UB T s e = Some s'.
+Proof. exact tree_enabled. Qed.
+
+(* ---- non-vacuity: server -> [manager -> [manager(2 workers); manager(1 worker)]; manager(2 workers)].
+   A task goes down three levels; its body submits a batch of 3 that is split between the local manager
+   and (two levels up, down again) the other top-level manager; the result of one of them travels
+   up two levels and down three to the worker that owns the return address. *)
+Definition ex_tree3 : tree := Node [Node [Leaf 2; Leaf 1]; Leaf 2].
+Ltac wf_tac :=
+  first [ apply wf_leaf; vm_compute; reflexivity
+        | apply wf_node; [discriminate | vm_compute; reflexivity |
+            let i := fresh "i" in let c := fresh "c" in let H := fresh "H" in
+            intros i c H;
+            repeat (destruct i as [|i]; simpl in H; [injection H as <-; wf_tac|]);
+            destruct i; discriminate ] ].
+Definition ex_tree_run : list tev :=
+  [TRoot [1] [[1]; []]; TDeliver [0] Down 0 [[1]; []]; TDeliver [0; 0] Down 0 [[]; [1]];
+   TWorkerRecv [0; 0; 1];
+   TInjBatch [0; 0; 1] false [2; 3; 4];
+   TDeliver [0; 0; 1] Up 1 [[2]; []];
+   TDeliver [0; 0] Up 0 [];
+   TDeliver [0] Up 0 [[]; [3; 4]];
+   TDeliver [1] Down 0 [[4]; [3]];
+   TWorkerRecv [1; 0];
+   TInjRes [1; 0] 7 (Some [0; 0; 1]);
+   TDeliver [1; 0] Up 0 [];
+   TDeliver [1] Up 0 [];
+   TDeliver [0] Down 0 [];
+   TDeliver [0; 0] Down 0 [];
+   TWorkerRecv [0; 0; 1]].
+
+Example C07_tree_nonvacuous :
+  wf server_lower_id_bound server_upper_id_bound ex_tree3 /\ (0 <= server_lower_id_bound)%Z /\ emp_pos ex_tree3 /\
+  exists s, tsteps server_lower_id_bound server_upper_id_bound ex_tree3 net0 ex_tree_run = Some s /\
+    treach server_lower_id_bound server_upper_id_bound ex_tree3 s /\
+    worker_at server_lower_id_bound server_upper_id_bound ex_tree3 [0; 0; 1] = Some 1%Z /\
+    worker_at server_lower_id_bound server_upper_id_bound ex_tree3 [1; 0] = Some 536870912%Z /\
+    n_inbox s = [([0; 0; 1], TBatch false [1]); ([1; 0], TBatch false [4]); ([0; 0; 1], TRes 7 1%Z 536870912%Z)] /\
+    n_chan s = [([0; 0; 0], Down, TBatch false [2]); ([1; 1], Down, TBatch false [3])] /\
+    n_err s = [] /\ n_tinj s = [1; 2; 3; 4] /\
+    option_map (measure ex_tree3)
+      (tsteps server_lower_id_bound server_upper_id_bound ex_tree3 net0 (firstn 12 ex_tree_run)) = Some 8.
+Proof.
+  split; [wf_tac|]. split; [vm_compute; discriminate|]. split; [simpl; repeat split; auto|].
+  destruct (tsteps server_lower_id_bound server_upper_id_bound ex_tree3 net0 ex_tree_run) as [s|] eqn:E;
+    [|vm_compute in E; discriminate].
+  exists s. split; [reflexivity|]. split; [exists ex_tree_run; exact E|].
+  vm_compute in E. injection E as <-. repeat split; vm_compute; reflexivity.
 Qed.
